@@ -293,6 +293,22 @@ impl C15 {
                     if o.ok() {
                         c.stats.bump("c15.matrix_accepted");
                     }
+                    // distinct (message class, role class, funds, entitled, outcome) cells
+                    let class: String = label.split('.').take(2).collect::<Vec<_>>().join(".");
+                    let role_class = if *role == a.owner.as_str() {
+                        "initial_owner"
+                    } else if *role == a.owner2.as_str() {
+                        "owner2"
+                    } else if *role == a.stranger.as_str() {
+                        "stranger"
+                    } else if *role == a.pm.as_str() {
+                        "pool_manager"
+                    } else if *role == a.fm.as_str() {
+                        "farm_manager"
+                    } else {
+                        "user"
+                    };
+                    c.stats.sig(&[&class, role_class, if with_funds { "funds" } else { "nofunds" }, if entitled { "entitled" } else { "not" }, if o.ok() { "ok" } else { "rej" }]);
                     c.w.restore(&snap);
                 }
             }
